@@ -634,3 +634,76 @@ Proof.
   destruct (parse_string maxd body) as [e0| |] eqn:Ep; try discriminate.
   intros H; inversion H; subst. exists ds, body. split; [apply pf_search_spec; auto|auto].
 Qed.
+
+(* ---------- completeness of the search: no match  <->  no declaration anywhere in the value ---------- *)
+Lemma strip_prefix_app p : forall r, strip_prefix p (p ++ r) = Some r.
+Proof. induction p as [|c p IH]; cbn; intros r; auto. rewrite N.eqb_refl. auto. Qed.
+
+Lemma span_app (p : N -> bool) : forall a b, forallb p a = true ->
+  match b with [] => True | c :: _ => p c = false end -> span p (a ++ b) = (a, b).
+Proof.
+  induction a as [|x a IH]; cbn; intros b Ha Hb.
+  - destruct b as [|c b]; cbn; auto. rewrite Hb. auto.
+  - apply andb_prop in Ha. destruct Ha as [Hx Ha]. rewrite Hx. rewrite (IH b Ha Hb). reflexivity.
+Qed.
+
+Lemma pf_match_here_complete s ds body r : pf_shape s [] ds body r -> pf_match_here s = Some (ds, body, r).
+Proof.
+  intros [blanks [semi [Hs [Hd [[d0 [ds' [Hds Hd0]]] [Hb [Hne [Hbody Hsemi]]]]]]]]. cbn [app] in Hs. subst s.
+  unfold pf_match_here. rewrite strip_prefix_app. subst ds. cbn [app].
+  assert (E0 : (49 <=? d0)%N && (d0 <=? 57)%N = true) by (apply andb_true_intro; split; apply N.leb_le; lia).
+  rewrite E0.
+  change (d0 :: ds' ++ 59%N :: blanks ++ s_plural ++ body ++ semi ++ r)
+    with ((d0 :: ds') ++ (59%N :: blanks ++ s_plural ++ body ++ semi ++ r)).
+  rewrite (span_app is_digit (d0 :: ds') (59%N :: blanks ++ s_plural ++ body ++ semi ++ r) Hd) by reflexivity.
+  cbn [N.eqb negb]. change (N.eqb 59 59) with true. cbn [negb].
+  assert (Hsp : span is_blank (blanks ++ s_plural ++ body ++ semi ++ r) = (blanks, s_plural ++ body ++ semi ++ r))
+    by (apply span_app; auto; reflexivity).
+  rewrite Hsp. rewrite strip_prefix_app.
+  assert (Hsb : span not_semi (body ++ semi ++ r) = (body, semi ++ r)).
+  { apply span_app; auto. destruct Hsemi as [-> | [-> ->]]; cbn; auto. }
+  rewrite Hsb. destruct body as [|b0 b']; [contradiction|].
+  destruct Hsemi as [-> | [-> ->]]; cbn; reflexivity.
+Qed.
+
+Lemma pf_shape_split s l ds body r : pf_shape s l ds body r <-> exists rest, s = l ++ rest /\ pf_shape rest [] ds body r.
+Proof.
+  split.
+  - intros [blanks [semi [Hs H]]]. exists (s_nplurals ++ ds ++ [59%N] ++ blanks ++ s_plural ++ body ++ semi ++ r).
+    split; auto. exists blanks, semi. split; auto.
+  - intros [rest [-> [blanks [semi [Hs H]]]]]. exists blanks, semi. split; auto. cbn [app] in Hs. rewrite Hs. reflexivity.
+Qed.
+
+Lemma pf_search_app_some l : forall rest x, pf_match_here rest = Some x -> pf_search (l ++ rest) <> None.
+Proof.
+  induction l as [|c l IH]; intros rest [[d b] r0] Hm; cbn [app].
+  - destruct rest; cbn [pf_search]; rewrite Hm; discriminate.
+  - cbn [pf_search]. destruct (pf_match_here (c :: l ++ rest)) as [[[d' b'] r']|]; [discriminate|].
+    specialize (IH rest _ Hm). destruct (pf_search (l ++ rest)) as [[[[l0 d0] b0] r1]|]; [discriminate|contradiction].
+Qed.
+
+Theorem pf_search_none_iff s : pf_search s = None <-> forall l ds body r, ~ pf_shape s l ds body r.
+Proof.
+  split.
+  - intros Hn l ds body r Hsh. apply pf_shape_split in Hsh. destruct Hsh as [rest [-> Hsh]].
+    apply pf_match_here_complete in Hsh. exact (pf_search_app_some l rest _ Hsh Hn).
+  - intros H. destruct (pf_search s) as [[[[l ds] body] r]|] eqn:E; auto.
+    exfalso. apply (H l ds body r). apply pf_search_spec. auto.
+Qed.
+
+(* the syntax error is reported iff the value contains no declaration at all, or the expression text of the leftmost one
+   is not a plural expression *)
+Theorem syntax_error_characterised maxd s : maxd = 0%N ->
+  (parse_plural_forms maxd s = Err PFSyntax <->
+   (forall l ds body r, ~ pf_shape s l ds body r) \/
+   (exists l ds body r, pf_search s = Some (l, ds, body, r) /\ parse_string maxd body = Err SynErr)).
+Proof.
+  intros ->. unfold parse_plural_forms. split.
+  - destruct (pf_search s) as [[[[l ds] body] r]|] eqn:E.
+    + cbn. destruct (parse_string 0 body) as [e|[]|c] eqn:Ep; try discriminate.
+      intros _. right. exists l, ds, body, r. auto.
+    + intros _. left. apply pf_search_none_iff. auto.
+  - intros [H|[l [ds [body [r [E Ep]]]]]].
+    + apply pf_search_none_iff in H. rewrite H. reflexivity.
+    + rewrite E. cbn. rewrite Ep. reflexivity.
+Qed.
